@@ -121,3 +121,12 @@ class CONST(T):
         from .values import lift
 
         return lift(self.value)
+
+
+class NDARRAY(SEQ):
+    """1-D numpy array, modelled as a sequence (elementwise arithmetic with scalars allowed)."""
+
+    def fresh(self, name):
+        r = super().fresh(name)
+        r.is_ndarray = True
+        return r
